@@ -136,17 +136,14 @@ def isSymbol (c : EncCfg) (s : Str) : Bool :=
 def needsQuotesBase (c : EncCfg) (s : Str) : Except EErr Bool :=
   if c.g.whitespace.any (fun w => s.contains w) then .ok true
   else if c.g.reservedKeywords.contains s then .ok true
-  else match Tok.isUnquotedString c.d s with
-    | .error .type => .error .type
-    | .error .value => .error .value
-    | .ok b =>
+  else
+      let b := Tok.isUnquotedString c.d s
       if s.isEmpty || !b then .ok true
       else if endsWith s [45] then .ok true
       else match decodeSimple c.d s with
         | .ok (.str t) => .ok (t != s)
         | .ok _ => .ok true
         | .error .value => .ok true
-        | .error .type => .error .type
 
 /-- `needs_quotes` of each class (`ODLEncoder.needs_quotes`, :633, adds the identifier rule) -/
 def needsQuotes (c : EncCfg) (s : Str) : Except EErr Bool :=
